@@ -9,6 +9,7 @@ import (
 	"database/sql"
 	"fmt"
 	"reflect"
+	"sort"
 	"strings"
 	"time"
 
@@ -122,6 +123,7 @@ func show(v reflect.Value) string {
 		for it.Next() {
 			parts = append(parts, show(it.Key())+":"+show(it.Value()))
 		}
+		sort.Strings(parts)
 		return "map[" + strings.Join(parts, " ") + "]"
 	case reflect.String:
 		return fmt.Sprintf("%q", v.String())
